@@ -31,6 +31,7 @@ if [ "$res_apply" = ok ] && [ "$suite" = ok ]; then
     results="$results{\"property\":\"$p\",\"exit\":$rc,\"violation_lines\":$v},"
   done
   git -C /repo checkout -- .
+  git -C /repo clean -fdq   # a change may add files
   git -C /repo status --short
 fi
 for p in $PROPS; do
